@@ -3,7 +3,7 @@ from __future__ import annotations
 
 from typing import Any, Dict, List
 
-ALL_VOCAB = ["cmp2", "objeq", "in", "chain", "idx", "call", "fp", "cp", "ht", "forall", "flat", "nest", "kw"]
+ALL_VOCAB = ["cmp2", "objeq", "in", "chain", "idx", "call", "fp", "cp", "ht", "forall", "flat", "nest", "kw", "nodom"]
 
 
 def gen_config(rng, tier: str, **force) -> dict:
@@ -159,6 +159,12 @@ def gen_pool(rng, cfg, world) -> dict:
         if "kw" in cfg["vocab"] and rng.random() < cfg.get("kw_p", 0.3):
             v["form"] = "kw"
             v["kw"] = {rng.choice(["a", "b"]): rng.choice(world["vals"])}
+        if "nodom" in cfg["vocab"] and cfg.get("allow_nodom") and rng.random() < 0.3:
+            # no explicit domain: the variable ranges over the instance registry (all of the world's objects)
+            v["dom"] = None
+            v["kind"] = "list"
+            if v["form"] == "From":
+                v["form"] = "let"
         vars_.append(v)
         types[n] = t
     extra = []
